@@ -44,7 +44,7 @@ impl Property for C06 {
         "C06"
     }
     fn rule(&self) -> String {
-        "Cases: (operand of any zoo type/length/provenance, rotation amount 0<=k<=len, direction). Enumerated: all values and all k for n<=10 (quick)/13 (thorough) on all 20 types; every (n,k) for n<=min(C,100)/320 with run-pattern values whose run of ones ends at k, at k+-1 and at a storage-word boundary. Oracle: list rotation (bit i moves to (i+k) mod n for rotl, (i-k) mod n for rotr), the stated consequences as metamorphic checks (rotl k then rotr k = identity; rotl k = rotr (n-k); popcount preserved) and the observer battery on every result. Non-trivial: n>1, 0<k<n and the value is not invariant under that rotation. Distinct by hash of the case.".into()
+        "Cases: (operand of any zoo type/length/provenance, rotation amount 0<=k<=len, direction). Enumerated: all values and all k for n<=10 (quick)/13 (thorough) on all 20 types; every (n,k) for n<=min(C,100)/320 with run-pattern values whose run of ones ends at k, at k+-1 and at a storage-word boundary; long vectors: every length 321..2600 (thorough 8300), 1024..8193 bits on Bvd/Bv/the 2560-bit type, the 70 400-bit fixed type at 7 lengths x 15 amounts, and a geometric ladder of lengths around every power of two from 2^14 to 2^21 (thorough 2^24) bits x 7 amounts. Oracle: list rotation (bit i moves to (i+k) mod n for rotl, (i-k) mod n for rotr), the stated consequences as metamorphic checks (rotl k then rotr k = identity; rotl k = rotr (n-k); popcount preserved) and the observer battery on every result. Non-trivial: n>1, 0<k<n and the value is not invariant under that rotation. Distinct by hash of the case.".into()
     }
     fn random_cases(&self, tier: Tier) -> u64 {
         tier.pick(200000, 6400000)
@@ -74,7 +74,7 @@ impl Property for C06 {
     }
     fn enumerate(&self, tier: Tier, sh: &mut Shard, f: &mut dyn FnMut(C06Case) -> bool) {
         let ksmall = tier.pick(10, 13);
-        for t in 0..NT {
+        for t in ROUTINE_TIDS {
             let c = fixed_cap(t).unwrap_or(usize::MAX);
             for n in 0..=ksmall.min(c) {
                 for a in all_values(n) {
@@ -147,8 +147,42 @@ impl Property for C06 {
                 }
             }
         }
+        // the 70 400-bit fixed type
+        for n in HUGE_TYPE_LENS {
+            if !sh.mine() {
+                continue;
+            }
+            for a in [long_values(n)[1].clone(), long_values(n)[3].clone()] {
+                for k in [0usize, 1, 63, 64, 65, 1537, 4096, 4099, 8200, 65536, 65541, n / 2, n.saturating_sub(64), n - 1, n] {
+                    if k > n {
+                        continue;
+                    }
+                    for left in [true, false] {
+                        if !f(C06Case { a: Operand::canon(TID_HUGE, a.clone()), k, left }) {
+                            return;
+                        }
+                    }
+                }
+            }
+        }
+        // geometric ladder of lengths up to megabits on the unbounded types
+        for (t, n) in ladder_lengths(tier) {
+            if !sh.mine() {
+                continue;
+            }
+            let a = dense_value(n);
+            for (j, k) in [1usize, 64, 4099, 65541, n / 2 + 3, n - 65, n - 1].into_iter().enumerate() {
+                if k > n {
+                    continue;
+                }
+                let prov = if j % 3 == 2 { Prov::Spare(200) } else { Prov::Canon };
+                if !f(C06Case { a: Operand { ty: t, bits: a.clone(), prov }, k, left: (j + n) % 2 == 0 }) {
+                    return;
+                }
+            }
+        }
         let nmax = tier.pick(100, 320);
-        for t in 0..NT {
+        for t in ROUTINE_TIDS {
             let c = fixed_cap(t).unwrap_or(nmax).min(nmax);
             let w = WORD_BITS[t as usize];
             for n in (ksmall + 1)..=c {
